@@ -30,7 +30,9 @@ PLUMBING = ['compileNode', 'compileNodeWithoutResult', 'compileNodeWithResult', 
             'compileStatements', 'compileStatementsWithoutResult', 'compileStatementsWithResult',
             'compileStatementsOk', 'compileUnhygienicExpressionNode', 'compileTypeofExpressionNode',
             'compileTryExpressionNode', 'compileLabeledExpressionNode', 'compileLogicalExpressionNode',
-            'nilCoalescing', 'logicalOr', 'logicalAnd']
+            'nilCoalescing', 'logicalOr', 'logicalAnd',
+            # node compilers simple enough to be verified instead of assumed
+            'compileAsExpressionNode', 'compileMustExpressionNode', 'compileThrowExpressionNode']
 
 def body(name):
     m = re.search(r'^func \(c \*BytecodeCompiler\) %s\((.*?)\)\s*([^{\n]*)\{\n(.*?)^\}\n' % name, SRC, re.M | re.S)
@@ -99,6 +101,9 @@ hand = {
  'compileLogicalExpressionNode': HEAD + "\n" + PROTO_NOFLAG + """
   ensures used: !valueIsIgnored ==> ret == expressionCompiled""",
 }
+hand['compileAsExpressionNode'] = HEAD + "\n" + ONE      # value, type, AS pops the type
+hand['compileMustExpressionNode'] = HEAD + "\n" + ONE    # value, MUST peeks
+hand['compileThrowExpressionNode'] = HEAD + "\n" + ONE + "\n  ensures dead: dd(c)"   # THROW never falls through
 for n in ('nilCoalescing', 'logicalOr', 'logicalAnd'):
     hand[n] = HEAD + "\n" + PROTO_NOFLAG + """
   ensures code: valueIsIgnored ==> ret == expressionCompiledWithoutResult
